@@ -16,19 +16,8 @@ variable (E : Env) (s : St) (t : Tid)
 @[simp] theorem tick_prev : (tick E s).prev = s.prev := rfl
 @[simp] theorem tick_threads : (tick E s).threads = s.threads := rfl
 @[simp] theorem tick_timer : (tick E s).timer = s.timer := rfl
-@[simp] theorem tick_diag : (tick E s).diag = s.diag := rfl
 @[simp] theorem tick_now : (tick E s).now = s.now + E.inc s.reads := rfl
 
-@[simp] theorem emit_stack (b : Bool) (d : Diag) : (emit b d s).stack = s.stack := rfl
-@[simp] theorem emit_exc (b : Bool) (d : Diag) : (emit b d s).exc = s.exc := rfl
-@[simp] theorem emit_ub (b : Bool) (d : Diag) : (emit b d s).ub = s.ub := rfl
-@[simp] theorem emit_depth (b : Bool) (d : Diag) : (emit b d s).depth = s.depth := rfl
-@[simp] theorem emit_cur (b : Bool) (d : Diag) : (emit b d s).cur = s.cur := rfl
-@[simp] theorem emit_prev (b : Bool) (d : Diag) : (emit b d s).prev = s.prev := rfl
-@[simp] theorem emit_threads (b : Bool) (d : Diag) : (emit b d s).threads = s.threads := rfl
-@[simp] theorem emit_now (b : Bool) (d : Diag) : (emit b d s).now = s.now := rfl
-@[simp] theorem emit_reads (b : Bool) (d : Diag) : (emit b d s).reads = s.reads := rfl
-@[simp] theorem emit_timer (b : Bool) (d : Diag) : (emit b d s).timer = s.timer := rfl
 
 @[simp] theorem stopThread_stack : (stopThread s t).stack = s.stack := by
   unfold stopThread; split <;> (try split) <;> rfl
@@ -45,8 +34,6 @@ variable (E : Env) (s : St) (t : Tid)
 @[simp] theorem stopThread_now : (stopThread s t).now = s.now := by
   unfold stopThread; split <;> (try split) <;> rfl
 @[simp] theorem stopThread_reads : (stopThread s t).reads = s.reads := by
-  unfold stopThread; split <;> (try split) <;> rfl
-@[simp] theorem stopThread_diag : (stopThread s t).diag = s.diag := by
   unfold stopThread; split <;> (try split) <;> rfl
 
 @[simp] theorem startedWaitFor_stack : (startedWaitFor s t).stack = s.stack := by simp [startedWaitFor]
@@ -80,24 +67,24 @@ end fields
 theorem enterVM_over (E : Env) (s : St) (t : Tid) (h : s.depth > E.cfg.maxDepth) :
     (enterVM E s t).stack = s.stack ∧ (enterVM E s t).depth = s.depth ∧ (enterVM E s t).exc = some .depth ∧
     (enterVM E s t).cur = s.cur ∧ (enterVM E s t).ub = s.ub ∧ (enterVM E s t).prev = s.prev ∧
-    (enterVM E s t).now = s.now ∧ (enterVM E s t).reads = s.reads ∧ (enterVM E s t).diag = s.diag := by
+    (enterVM E s t).now = s.now ∧ (enterVM E s t).reads = s.reads := by
   simp [enterVM, h]
 
 theorem enterVM_ok (E : Env) (s : St) (t : Tid) (h : ¬ s.depth > E.cfg.maxDepth) :
     ∃ dl ct, (enterVM E s t).stack = .vm t dl ct false 0 :: s.stack ∧ (enterVM E s t).depth = s.depth + 1 ∧
       (enterVM E s t).exc = s.exc ∧ (enterVM E s t).cur = s.cur ∧ (enterVM E s t).ub = s.ub ∧
-      (enterVM E s t).prev = s.prev ∧ (enterVM E s t).diag = s.diag ∧ s.now ≤ (enterVM E s t).now ∧
+      (enterVM E s t).prev = s.prev ∧ s.now ≤ (enterVM E s t).now ∧
       (dl ≠ 0 → E.cfg.maxExec ≠ 0 ∧ ∃ r0, dl = r0 + E.cfg.maxExec ∧ s.now ≤ r0 ∧ r0 + E.inc s.reads = ct ∧
          ct + E.inc (s.reads + 1) = (enterVM E s t).now) := by
   unfold enterVM
   rw [if_neg h]
   by_cases hm : E.cfg.maxExec ≠ 0
   · rw [if_pos hm]
-    refine ⟨_, _, rfl, rfl, rfl, rfl, rfl, rfl, rfl, ?_, ?_⟩
+    refine ⟨_, _, rfl, rfl, rfl, rfl, rfl, rfl, ?_, ?_⟩
     · simp [tick]; omega
     · intro _; exact ⟨hm, s.now, by simp, Nat.le_refl _, by simp [tick], by simp [tick]⟩
   · rw [if_neg hm]
-    refine ⟨_, _, rfl, rfl, rfl, rfl, rfl, rfl, rfl, ?_, ?_⟩
+    refine ⟨_, _, rfl, rfl, rfl, rfl, rfl, rfl, ?_, ?_⟩
     · simp [tick]
     · intro h0; exact absurd rfl h0
 
